@@ -17,12 +17,20 @@ def sh(cmd, **kw):
 
 
 def cli(build, script):
+    """Runs the script as a file and, separately, line by line through the REPL (for multi-snippet demos); cwd = the demo's directory
+    so that module files next to it are found."""
     exe = os.path.join(tgt, build, "yarel-cli")
-    try:
-        p = subprocess.run([exe, script], capture_output=True, text=True, timeout=600)
-        return {"rc": p.returncode, "stdout": p.stdout[-4000:], "stderr": p.stderr[-2000:]}
-    except subprocess.TimeoutExpired:
-        return {"rc": "timeout", "stdout": "", "stderr": ""}
+    out = {}
+    for mode in ("file", "repl"):
+        try:
+            if mode == "file":
+                p = subprocess.run([exe, script], capture_output=True, text=True, timeout=600, cwd=os.path.dirname(script))
+            else:
+                p = subprocess.run([exe], stdin=open(script), capture_output=True, text=True, timeout=600, cwd=os.path.dirname(script))
+            out[mode] = {"rc": p.returncode, "stdout": p.stdout[-4000:], "stderr": p.stderr[-2000:]}
+        except subprocess.TimeoutExpired:
+            out[mode] = {"rc": "timeout", "stdout": "", "stderr": ""}
+    return out
 
 
 def build_clis():
